@@ -97,11 +97,18 @@ func c03Check(env *core.Env, cc core.Case) core.Verdict {
 			tree := c.Proj.tree()
 			if c.Stale {
 				for _, n := range []string{"941", "942", "944", "945", "946"} {
-					tree["regex-assembly/"+n+"100.ra"] = "fresh" + n + "\nword\n"
-					tree["rules/REQUEST-"+n+"-STALE-LANE.conf"] = "SecRule ARGS \"@rx old" + n + "\" \\\n    \"id:" + n + "100,\\\n    phase:2,\\\n    deny\"\n"
+					var conf strings.Builder
+					for k := 0; k < 8; k++ {
+						id := fmt.Sprintf("%s1%d0", n, k)
+						tree["regex-assembly/"+id+".ra"] = "fresh" + id + "\nword\n"
+						conf.WriteString("SecRule ARGS \"@rx old" + id + "\" \\\n    \"id:" + id + ",\\\n    phase:2,\\\n    deny\"\n")
+					}
+					tree["rules/REQUEST-"+n+"-STALE-LANE.conf"] = conf.String()
 				}
-				tree["regex-assembly/943100.ra"] = "nowhere\n"
-				tree["rules/REQUEST-943-STALE-LANE.conf"] = "# the rule 943100 was removed\n"
+				// the assembly file without a rule lies in the middle of the walk or at its end
+				stale := []string{"943100", "949100"}[len(strings.Join(c.Cmd, " "))%2]
+				tree["regex-assembly/"+stale+".ra"] = "nowhere\n"
+				tree["rules/REQUEST-"+stale[:3]+"-STALE-LANE.conf"] = "# the rule " + stale + " was removed\n"
 			}
 			if err := tree.WriteOrdered(root, i%2 == 1); err != nil {
 				return core.Incon("cannot write tree: %v", err)
